@@ -41,7 +41,26 @@ fn main() {
         out.push_str(&format!("BEGIN {}\n", sc.sid));
         let r = std::panic::catch_unwind(std::panic::AssertUnwindSafe(|| run_scenario(sc)));
         match r {
-            Ok(s) => out.push_str(&s),
+            Ok(s) => {
+                out.push_str(&s);
+                // C01: the same scenario again in this OS process (fresh hash maps) must give the same history
+                if std::env::var("ASV_REPEAT").is_ok() {
+                    let r2 = std::panic::catch_unwind(std::panic::AssertUnwindSafe(|| run_scenario(sc)));
+                    match r2 {
+                        Ok(s2) if s2 == s => out.push_str("#REPEAT same\n"),
+                        Ok(s2) => {
+                            let d = s.lines().zip(s2.lines()).position(|(a, b)| a != b).unwrap_or(0);
+                            out.push_str(&format!(
+                                "REPEAT-DIFFERS line {} first={:?} second={:?}\n",
+                                d,
+                                s.lines().nth(d),
+                                s2.lines().nth(d)
+                            ));
+                        }
+                        Err(_) => out.push_str("REPEAT-DIFFERS second run panicked\n"),
+                    }
+                }
+            }
             Err(_) => out.push_str("HARNESSPANIC\n"),
         }
         out.push_str(&format!("END {}\n", sc.sid));
